@@ -35,7 +35,8 @@ def po_figures(S):
     S.check("totals", S.eq(m.total_supply_value, sup) and S.eq(m.total_collateral_value, coll) and S.eq(m.total_borrows_value, debt))
 
 
-@proof("C11", "borrow/accepted=>debt-covered-by-collateral-x-max-ltv", strength="S", shapes=SHAPES, contracts=AAVE_CONTRACTS)
+@proof("C11", "borrow/accepted=>debt-covered-by-collateral-x-max-ltv", strength="S", shapes=SHAPES, contracts=AAVE_CONTRACTS,
+       covers=lambda sh: ("accepted",) if sh["supplies"] else ())
 def po_borrow_accepted(S):
     w = world(S)
     m = w.market
@@ -91,7 +92,7 @@ def po_borrow_beyond(S):
     S.check("rejected", not ok)
 
 
-@proof("C11", "withdraw/accepted=>health-factor>=1", strength="S", shapes=SHAPES_WITH_SUPPLY_OF_OP, contracts=AAVE_CONTRACTS)
+@proof("C11", "withdraw/accepted=>health-factor>=1", strength="S", shapes=SHAPES_WITH_SUPPLY_OF_OP, contracts=AAVE_CONTRACTS, covers=("accepted",))
 def po_withdraw_accepted(S):
     w = world(S)
     m = w.market
@@ -132,7 +133,7 @@ def po_withdraw_limits(S):
         S.check("beyond-limits=>rejected", not ok)
 
 
-@proof("C11", "change_collateral/accepted=>health-factor>=1", strength="S", shapes=SHAPES_WITH_SUPPLY_OF_OP, contracts=AAVE_CONTRACTS)
+@proof("C11", "change_collateral/accepted=>health-factor>=1", strength="S", shapes=SHAPES_WITH_SUPPLY_OF_OP, contracts=AAVE_CONTRACTS, covers=("accepted",))
 def po_change_collateral(S):
     w = world(S)
     m = w.market
@@ -154,7 +155,7 @@ def po_change_collateral(S):
         S.check("flag-unchanged-on-reject", m._supplies[w.op].collateral == old)
 
 
-@proof("C11", "supply,repay/preserve-health-factor>=1", strength="S", shapes=SHAPES_WITH_DEBT, contracts=AAVE_CONTRACTS)
+@proof("C11", "supply,repay/preserve-health-factor>=1", strength="S", shapes=SHAPES_WITH_DEBT, contracts=AAVE_CONTRACTS, covers=("accepted",))
 def po_preserve(S):
     w = world(S)
     m = w.market
@@ -217,7 +218,7 @@ def po_max_withdraw(S):
 
 
 @proof("C11", "next-bar/limits-follow-THIS-bar's-indices-and-prices(after-the-views-were-read-in-an-earlier-bar)", strength="S",
-       shapes={k: [s for s in v if s["supplies"] and s["borrows"]][:2] for k, v in SHAPES.items()}, contracts=AAVE_CONTRACTS, config={"max_seconds": 600})
+       shapes={k: [s for s in v if s["supplies"] and s["borrows"]][:2] for k, v in SHAPES.items()}, contracts=AAVE_CONTRACTS, config={"max_seconds": 600}, covers=("accepted",))
 def po_next_bar(S):
     """The limits are stated per bar.  In bar 0 the strategy reads every view (and may have a request rejected) — whatever the market
     memoises is then filled; bar 1 brings new indices and prices; a borrow / collateral withdrawal accepted in bar 1 must satisfy the
